@@ -12,7 +12,7 @@
    node that KEEPS the children, which the walk never visited).  The inline parser makes references
    through make_inline, without children. *)
 From Coq Require Import List NArith Bool Lia Permutation.
-From V Require Import Base.Bytes Model.Ast Model.Footnotes Spec.FootnoteSpec Proofs.FootnoteProofs.
+From V Require Import Base.Bytes Model.Ast Model.Footnotes Spec.FootnoteSpec Spec.Valid Proofs.FootnoteProofs.
 Import ListNotations.
 Local Open Scope list_scope.
 
@@ -184,3 +184,26 @@ Lemma w_order_example :
   ref_ixs (fst (refs idb idb w_order (collect idb idb (top_defs w_order) 0 [], 0%N))) = [1; 2; 1]%N /\
   snd (snd (refs idb idb w_order (collect idb idb (top_defs w_order) 0 [], 0%N))) = 2%N.
 Proof. vm_compute. repeat split; reflexivity. Qed.
+
+(* the premise in the vocabulary of C04: Spec.Valid.leaves_ok (FootnoteReference is a leaf kind there; Parse_valid proves
+   structurally_valid, hence leaves_ok, of every tree the parser model returns) implies refs_leaf *)
+Lemma leaves_ok_refs_leaf : forall n, leaves_ok n = true -> refs_leaf n = true.
+Proof.
+  induction n as [v sp ch IH] using node_ind2. cbn [leaves_ok]. intro H.
+  apply andb_prop in H. destruct H as [H1 H2].
+  assert (forallb refs_leaf ch = true) as F.
+  { clear H1. induction IH as [|c r Hc _ IHr]; cbn [forallb] in *; [reflexivity|].
+    apply andb_prop in H2. destruct H2 as [Ha Hb]. rewrite (Hc Ha). cbn [andb]. apply IHr. exact Hb. }
+  destruct v; cbn [refs_leaf]; try exact F.
+  cbn in H1. destruct ch; [reflexivity | discriminate].
+Qed.
+
+Theorem refs_first_seen_valid (fold pres : bytes -> bytes) root : leaves_ok root = true ->
+  let r := refs fold pres root (collect fold pres (top_defs root) 0 [], 0%N) in
+  fs_ok 0 (ref_ixs (fst r)) = Some (snd (snd r)) /\
+  first_seen [] (ref_ixs (fst r)) = nseq 1 (N.to_nat (snd (snd r))).
+Proof.
+  intro L. apply leaves_ok_refs_leaf in L. cbv zeta. split.
+  - exact (refs_numbered_in_order fold pres root L).
+  - exact (refs_first_seen fold pres root L).
+Qed.
